@@ -218,7 +218,7 @@ def call_wrapper(dadi, pb, spec):
     params = inspect.signature(f).parameters
     lower = None if spec['lower'] is None else list(spec['lower'])
     upper = None if spec['upper'] is None else list(spec['upper'])
-    fixed = None if spec['fixed'] is None else list(spec['fixed'])
+    fixed = fx_real(spec['fixed'])
     kw = dict(multinom=bool(spec['multinom']), fixed_params=fixed)
     if w == 'optimize_grid':
         grid = tuple(slice(a, b, complex(0, m)) for (a, b, m) in spec['grid'])
@@ -235,10 +235,27 @@ def call_wrapper(dadi, pb, spec):
     if spec.get('maxiter') is not None and 'maxiter' in params: kw['maxiter'] = int(spec['maxiter'])
     return f(list(spec['p0']), pb.data, pb.model_func, None, **kw)
 
+# A parameter fixed at exactly zero, in every spelling a caller may use (a spec stores the tag, so that it stays JSON)
+ZEROS = {'int0': lambda: 0, 'float0': lambda: 0.0, 'negzero': lambda: -0.0, 'false': lambda: False,
+         'np0': lambda: np.float64(0.0), 'npint0': lambda: np.int64(0), 'np0d': lambda: np.array(0.0)}
+ZERO_TAGS = list(ZEROS)
+
+def fx_real(fixed):
+    """the fixed_params list as the caller passes it"""
+    return None if fixed is None else [ZEROS[f]() if isinstance(f, str) else f for f in fixed]
+
+def fx_num(fixed):
+    """the fixed values as numbers (None = free)"""
+    return None if fixed is None else [None if f is None else (0.0 if isinstance(f, str) else float(f)) for f in fixed]
+
+def has_zero_fixed(fixed):
+    return fixed is not None and any(f is not None and (isinstance(f, str) or float(f) == 0.0) for f in fixed)
+
 def start_full(spec):
-    if spec['fixed'] is None:
+    fixed = fx_num(spec['fixed'])
+    if fixed is None:
         return [float(v) for v in spec['p0']]
-    return [float(p) if f is None else float(f) for p, f in zip(spec['p0'], spec['fixed'])]
+    return [float(p) if f is None else float(f) for p, f in zip(spec['p0'], fixed)]
 
 def py_up(free, fixed):
     if fixed is None: return [float(v) for v in free]
@@ -286,7 +303,9 @@ def run_optim(chk, ctx, spec, sample=True):
     nfix = 0 if spec['fixed'] is None else sum(f is not None for f in spec['fixed'])
     bkind = lambda b: 'none' if b is None else ('partial' if any(v is None for v in b) else ('neg' if any(v < 0 for v in b) else ('zero' if any(v == 0 for v in b) else 'pos')))
     chk.l3((tn, k, nfix > 0, bkind(spec.get('lower')), bkind(spec.get('upper')), bool(spec['multinom']), spec['toy']['kind'],
-            spec.get('ll_scale', 1) != 1, spec.get('algorithm'), bool(spec.get('full_output', True)), spec.get('maxiter') is None))
+            spec.get('ll_scale', 1) != 1, spec.get('algorithm'), bool(spec.get('full_output', True)), spec.get('maxiter') is None,
+            has_zero_fixed(spec['fixed'])))
+    if has_zero_fixed(spec['fixed']): chk.stat('optimiser_runs_with_a_parameter_fixed_at_zero')
     for s in ('wrapper:' + tn, 'params:%d' % k, 'fixed:%d' % nfix, 'lower:' + bkind(spec.get('lower')), 'upper:' + bkind(spec.get('upper')),
               'multinom:%s' % bool(spec['multinom']), 'toy:' + spec['toy']['kind']):
         chk.stat(s)
@@ -318,7 +337,7 @@ def run_optim(chk, ctx, spec, sample=True):
         xret = np.asarray(ret[0], dtype=float).ravel(); fret = float(ret[1])
     else:
         xret = np.asarray(ret, dtype=float).ravel(); fret = None
-    lower, upper, fixed = spec.get('lower'), spec.get('upper'), spec['fixed']
+    lower, upper, fixed = spec.get('lower'), spec.get('upper'), fx_num(spec['fixed'])
     multinom = bool(spec['multinom'])
     scale = float(spec.get('ll_scale', 1)) if (w != 'opt' and 'll_scale' in inspect.signature(getattr(dadi.Inference, w)).parameters) else 1.0
     verdict = []
@@ -453,7 +472,7 @@ def k_trace(chk, ctx, spec, pb, rec, calls, xret, fret, verdict, scale):
        or not all(math.isfinite(v) for v in b['values']):
         chk.k_skipped += 1; chk.stat('trace_nonfinite_skipped'); return
     # function tables: exactly the floats numpy computes for these scalars
-    p0 = spec.get('p0') or py_up([a for a, _, _ in spec['grid']], spec['fixed'])
+    p0 = spec.get('p0') or py_up([a for a, _, _ in spec['grid']], fx_num(spec['fixed']))
     expt, logt = {}, {}
     with np.errstate(all='ignore'):
         for v in list(p0) + [x for bb in (spec.get('lower'), spec.get('upper')) if bb for x in bb if x is not None]:
@@ -466,7 +485,7 @@ def k_trace(chk, ctx, spec, pb, rec, calls, xret, fret, verdict, scale):
     if not all(math.isfinite(v) for v in expt.values()):
         chk.k_skipped += 1; chk.stat('trace_exp_overflow_skipped'); return      # the optimiser stepped to exp(x) = inf
     head = '%s %s %s %s %s %s %s %s %s' % (tn, tok_vec(p0), tok_bounds(spec.get('lower')), tok_bounds(spec.get('upper')),
-                                           tok_bounds(spec['fixed']), rat(scale), tok_vecs(b['queries']), tok_vec(xraw), rat(fraw))
+                                           tok_bounds(fx_num(spec['fixed'])), rat(scale), tok_vecs(b['queries']), tok_vec(xraw), rat(fraw))
     tail = '%s %s %s %s' % (tok_tab(expt), tok_tab(logt), rat(Fraction(1, 10 ** 9)), rat(Fraction(1, 10 ** 9)))
     ans = driver.ask('c12.points %s = - %s' % (head, tail))
     if not ans.startswith('ok '):
@@ -585,6 +604,19 @@ def gen_spec(rng, wrapper, tier, **force):
         if positive: fixed = [None if f is None else max(f, 0.05) for f in fixed]
     elif k == 1 and rng.random() < 0.15:
         fixed = [None]
+    # parameters fixed at exactly ZERO (misidentification, migration, inbreeding ... switched off), in any spelling of zero
+    if force.get('zero_at') is not None:
+        fixed = [None] * k if fixed is None else fixed
+        tags = force.get('zero_tags') or [str(t) for t in rng.permutation(ZERO_TAGS)]
+        for j, i in enumerate(force['zero_at']): fixed[i] = tags[j % len(tags)]
+        for i in force.get('fix_also', ()): fixed[i] = max(true[i], 0.05) if positive else true[i]
+    elif fixed is not None and any(f is not None for f in fixed) and rng.random() < 0.3:
+        cands = [i for i, f in enumerate(fixed) if f is not None]
+        fixed[int(rng.choice(cands))] = str(rng.choice(ZERO_TAGS))
+    for i, f in enumerate(fixed or []):
+        if isinstance(f, str):                       # the box of that entry must contain 0 (the bounds apply to fixed values too)
+            lo[i] = 0.0 if positive else min(lo[i], -0.5)
+            hi[i] = max(hi[i], 0.5)
     # shape of the bounds
     r = rng.random()
     pb_ = force.get('bounds')
@@ -625,6 +657,11 @@ def gen_grid_spec(rng, tier, **force):
     if 'nfree' in force:
         nf = force['nfree']; k = max(k, nf); toy = gen_toy(rng, k, True); true = toy['true']
         fixed = None if nf == k else [None if i < nf else true[i] for i in range(k)]
+    if force.get('zero_at') is not None:
+        fixed = [None] * k if fixed is None else fixed
+        for i in force['zero_at']: fixed[i] = str(rng.choice(ZERO_TAGS))
+    elif fixed is not None and rng.random() < 0.3:
+        fixed[int(rng.choice([i for i, f in enumerate(fixed) if f is not None]))] = str(rng.choice(ZERO_TAGS))
     free = [i for i in range(k) if fixed is None or fixed[i] is None]
     pts = 3 if len(free) >= 3 else int(rng.integers(3, 7))
     grid = [[round(true[i] - abs(true[i]) * 0.5 - 0.1, 4), round(true[i] + abs(true[i]) * 0.5 + 0.1, 4), pts] for i in free]
@@ -634,35 +671,49 @@ def gen_grid_spec(rng, tier, **force):
 # =============================================================================================== direct K / L3: projections
 def case_project(chk, ctx, spec):
     dadi = ctx['dadi']; driver = ctx['driver']; I = dadi.Inference
-    fixed, free, full = spec['fixed'], spec['free'], spec['full']
-    chk.l3(('project', None if fixed is None else tuple(f is None for f in fixed), len(free)))
+    free, full = spec['free'], spec['full']
+    fixed = fx_num(spec['fixed'])               # the values, as numbers (oracle, wire)
+    fixed_arg = lambda: fx_real(spec['fixed'])  # what the caller passes (0, 0.0, -0.0, False, numpy zeros, ...)
+    zero = has_zero_fixed(spec['fixed'])
+    chk.l3(('project', None if fixed is None else tuple(f is None for f in fixed), len(free),
+            tuple(sorted(set(f for f in (spec['fixed'] or []) if isinstance(f, str))))))
     chk.stat('project_cases')
-    # ---- L3: mutually inverse, fixed entries restored
+    if zero: chk.stat('project_cases_with_a_zero_fixed_value')
+    tag = ':zero_fixed' if zero else ''
+    # ---- L3: mutually inverse, fixed entries restored, lengths
     def call(f, *a):
         try:
             r = f(*a); return ('ok', np.asarray(r, dtype=float).ravel().tolist())
         except Exception as e:
             return ('exc', type(e).__name__)
-    up = call(I._project_params_up, np.array(free, dtype=float), fixed)
+    up = call(I._project_params_up, np.array(free, dtype=float), fixed_arg())
     nfree = len(free) if fixed is None else sum(f is None for f in fixed)
     if len(free) == nfree:
         if up[0] != 'ok':
-            chk.fail('_project_params_up:raises:' + up[1], '_project_params_up(%r, %r) raises %s' % (free, fixed, up[1]), spec)
+            chk.fail('_project_params_up:raises:' + up[1] + tag, '_project_params_up(%r, %r) raises %s' % (free, spec['fixed'], up[1]), spec)
         else:
-            if fixed is not None and not all(f is None or u == f for u, f in zip(up[1], fixed)):
-                chk.fail('_project_params_up:fixed', 'up(%r, %r) = %r does not carry the fixed values' % (free, fixed, up[1]), spec)
-            dn = call(I._project_params_down, np.array(up[1]), fixed)
+            want_up = py_up(free, fixed)
+            if len(up[1]) != len(want_up):
+                chk.fail('_project_params_up:length' + tag, 'up(%r, %r) has %d entries, fixed_params has %d' % (free, spec['fixed'], len(up[1]), len(want_up)), spec)
+            elif fixed is not None and not all(f is None or u == f for u, f in zip(up[1], fixed)):
+                chk.fail('_project_params_up:fixed' + tag, 'up(%r, %r) = %r does not carry the fixed values' % (free, spec['fixed'], up[1]), spec)
+            elif up[1] != want_up:
+                chk.fail('_project_params_up:free' + tag, 'up(%r, %r) = %r, expected %r' % (free, spec['fixed'], up[1], want_up), spec)
+            dn = call(I._project_params_down, np.array(up[1]), fixed_arg())
             if dn != ('ok', [float(v) for v in free]):
-                chk.fail('_project_params:down_up', 'down(up(%r, %r)) = %r' % (free, fixed, dn), spec)
+                chk.fail('_project_params:down_up' + tag, 'down(up(%r, %r)) = %r' % (free, spec['fixed'], dn), spec)
     if fixed is None or len(full) == len(fixed):
-        dn = call(I._project_params_down, list(full), fixed)
+        dn = call(I._project_params_down, list(full), fixed_arg())
+        want_dn = [float(v) for v in full] if fixed is None else [float(v) for v, f in zip(full, fixed) if f is None]
         if dn[0] != 'ok':
-            chk.fail('_project_params_down:raises:' + dn[1], '_project_params_down(%r, %r) raises %s' % (full, fixed, dn[1]), spec)
+            chk.fail('_project_params_down:raises:' + dn[1] + tag, '_project_params_down(%r, %r) raises %s' % (full, spec['fixed'], dn[1]), spec)
         else:
-            u2 = call(I._project_params_up, np.array(dn[1]), fixed)
-            want = py_up(dn[1], fixed)
+            if dn[1] != want_dn:
+                chk.fail('_project_params_down:free' + tag, 'down(%r, %r) = %r, expected the %d free entries %r' % (full, spec['fixed'], dn[1], len(want_dn), want_dn), spec)
+            u2 = call(I._project_params_up, np.array(dn[1]), fixed_arg())
+            want = [float(v) for v in full] if fixed is None else [float(v) if f is None else float(f) for v, f in zip(full, fixed)]
             if u2 != ('ok', want):
-                chk.fail('_project_params:up_down', 'up(down(%r, %r)) = %r, expected %r' % (full, fixed, u2, want), spec)
+                chk.fail('_project_params:up_down' + tag, 'up(down(%r, %r)) = %r, expected %r' % (full, spec['fixed'], u2, want), spec)
     # ---- K
     if driver is None or not driver.ok(): return
     out = driver.ask('c12.up %s %s' % (tok_vec(free), tok_bounds(fixed)))
@@ -672,7 +723,7 @@ def case_project(chk, ctx, spec):
     # down on a list with None entries (the bound lists are projected too)
     mixed = spec.get('mixed', full)
     try:
-        r = I._project_params_down(list(mixed), fixed)
+        r = I._project_params_down(list(mixed), fixed_arg())
         d = ('ok', [None if v is None else float(v) for v in list(r)])
     except Exception as e:
         d = ('exc', type(e).__name__)
@@ -685,6 +736,10 @@ def gen_project(rng):
     k = int(rng.integers(1, 7))
     r = rng.random()
     fixed = None if r < 0.15 else [None if rng.random() < 0.55 else round(float(rng.uniform(-3, 3)), 3) for _ in range(k)]
+    if fixed is not None and rng.random() < 0.4:        # parameters fixed at exactly zero, in any spelling
+        for i in range(k):
+            if fixed[i] is not None and rng.random() < 0.6: fixed[i] = str(rng.choice(ZERO_TAGS))
+        if not has_zero_fixed(fixed): fixed[int(rng.integers(k))] = str(rng.choice(ZERO_TAGS))
     nfree = k if fixed is None else sum(f is None for f in fixed)
     free = [round(float(rng.uniform(-5, 5)), 3) for _ in range(nfree)]
     full = [round(float(rng.uniform(-5, 5)), 3) for _ in range(k)]
@@ -699,20 +754,22 @@ def gen_project(rng):
 def case_objfunc(chk, ctx, spec):
     dadi = ctx['dadi']; driver = ctx['driver']; I = dadi.Inference
     pb = Problem(dadi, spec['toy'])
-    params, lower, upper, fixed, scale, multinom = spec['params'], spec['lower'], spec['upper'], spec['fixed'], spec['ll_scale'], spec['multinom']
+    params, lower, upper, scale, multinom = spec['params'], spec['lower'], spec['upper'], spec['ll_scale'], spec['multinom']
+    fixed = fx_num(spec['fixed'])
     try:
         with np.errstate(all='ignore'):
             if spec.get('log'):
                 v = I._object_func_log(np.log(np.array(params)), pb.data, pb.model_func, None, lower_bound=lower, upper_bound=upper, multinom=multinom,
-                                       fixed_params=fixed, ll_scale=scale)
+                                       fixed_params=fx_real(spec['fixed']), ll_scale=scale)
             else:
                 v = I._object_func(np.array(params, dtype=float), pb.data, pb.model_func, None, lower_bound=lower, upper_bound=upper, multinom=multinom,
-                                   fixed_params=fixed, ll_scale=scale)
+                                   fixed_params=fx_real(spec['fixed']), ll_scale=scale)
         impl = ('ok', float(v), [c.tolist() for c in pb.calls])
     except Exception as e:
         impl = ('exc', type(e).__name__, [c.tolist() for c in pb.calls])
     pu = py_up(np.exp(np.log(np.array(params))) if spec.get('log') else params, fixed) if (fixed is None or sum(f is None for f in fixed) <= len(params)) else None
-    chk.l3(('objfunc', lower is None, upper is None, fixed is None, multinom, scale != 1, bool(spec.get('log')), spec['toy'].get('nan_above') is not None))
+    chk.l3(('objfunc', lower is None, upper is None, fixed is None, multinom, scale != 1, bool(spec.get('log')), has_zero_fixed(spec['fixed'])))
+    if has_zero_fixed(spec['fixed']): chk.stat('objfunc_cases_with_a_zero_fixed_value')
     chk.stat('objfunc_cases')
     # ---- L3: outside the bounds the model is not called and the sentinel comes back; inside, -ll/ll_scale at the folded-in point
     if pu is not None and impl[0] == 'ok':
@@ -766,6 +823,10 @@ def gen_objfunc(rng):
         fixed = [None if rng.random() < 0.6 else round(true[i] + float(rng.uniform(-1, 1)), 3) for i in range(k)]
         if all(f is not None for f in fixed): fixed[0] = None
     lo = [round(t - float(rng.uniform(0.2, 2)), 3) for t in true]; hi = [round(t + float(rng.uniform(0.2, 2)), 3) for t in true]
+    if fixed is not None and rng.random() < 0.35:
+        for i in range(k):
+            if fixed[i] is not None and rng.random() < 0.7:
+                fixed[i] = str(rng.choice(ZERO_TAGS)); lo[i] = min(lo[i], float(rng.choice([0.0, -0.5]))); hi[i] = max(hi[i], float(rng.choice([0.0, 0.5])))
     mk = lambda b: None if rng.random() < 0.2 else [None if rng.random() < 0.25 else v for v in b]
     lower, upper = mk(lo), mk(hi)
     if lower is not None and rng.random() < 0.05: lower = lower[:-1] if len(lower) > 1 else lower     # zip() stops at the shorter list
@@ -948,6 +1009,20 @@ def run(chk, ctx):
         else:
             specs.append(gen_spec(rng, w, tier, bounds='full', k=2, pfixed=0.0, full_output=True, maxiter=None))
             specs.append(gen_spec(rng, w, tier, bounds='partial', k=3, pfixed=1.0, full_output=True))
+    # ---- a parameter fixed at exactly zero (0, 0.0, -0.0, False, numpy zeros): first / middle / last position, alone, together with a
+    #      non-zero fixed value, two zeros; through EVERY wrapper (the fixed entry must be 0 in every evaluation and in the result, the
+    #      p0 entry at that position is ignored)
+    zcases = [dict(k=3, zero_at=[0]), dict(k=3, zero_at=[1]), dict(k=3, zero_at=[2]),
+              dict(k=4, zero_at=[1], fix_also=[3]), dict(k=4, zero_at=[0, 3])]
+    for w in names:
+        if w.endswith('_resid'): continue
+        for j, zc in enumerate(zcases):
+            if w == 'optimize_grid':
+                if zc['k'] == 3 or j == 4: specs.append(gen_grid_spec(rng, tier, k=zc['k'], zero_at=zc['zero_at'], full_output=bool(j % 2)))
+                continue
+            for lo_ in ((False, True) if w == 'opt' else (False,)):
+                specs.append(gen_spec(rng, w, tier, pfixed=0.0, bounds=('partial' if j == 3 else 'full'), algorithm='LN_BOBYQA',
+                                      log_opt=lo_, **zc))
     if 'optimize_grid' in names:
         specs.append(gen_grid_spec(rng, tier, nfree=1, full_output=True))
         specs.append(gen_grid_spec(rng, tier, nfree=1, full_output=False))
@@ -966,6 +1041,18 @@ def run(chk, ctx):
     for _ in range(60 if quick else 4000):
         run_case(chk, ctx, gen_project(rng))
     run_case(chk, ctx, dict(case='project', fixed=[None, 1.0], free=[3.0], full=[3.0, 9.0], mixed=[None, 2.0]))
+    # every spelling of a zero fixed value x first / middle / last position, alone and next to a non-zero fixed value; all spellings at once
+    for t in ZERO_TAGS:
+        for pos in range(3):
+            fx = [None, None, None]; fx[pos] = t
+            run_case(chk, ctx, dict(case='project', fixed=fx, free=[1.25, -2.5], full=[1.25 if i != pos else 0.75 for i in range(3)][:2] + [-2.5 if pos != 2 else 0.75],
+                                    mixed=[0.5, None, -1.0]))
+            fx4 = [None, 1.5, None, None]; fx4[(pos * 3 // 2 + (1 if pos * 3 // 2 == 1 else 0)) % 4 if pos else 0] = t
+            nf = sum(f is None for f in fx4)
+            run_case(chk, ctx, dict(case='project', fixed=fx4, free=[0.5, -0.25, 4.0][:nf], full=[3.0, 0.0, -1.0, 2.0], mixed=[None, 0.0, 2.0, None]))
+    run_case(chk, ctx, dict(case='project', fixed=['int0', None, 'float0', 'negzero', 'false', None, 'np0', 'npint0', 'np0d'],
+                            free=[7.0, -3.0], full=[1.0, 2.0, 3.0, 4.0, 5.0, 6.0, 7.0, 8.0, 9.0], mixed=[None] * 9))
+    run_case(chk, ctx, dict(case='project', fixed=['float0', 'float0', 'float0', None], free=[2.0], full=[9.0, 8.0, 7.0, 2.0], mixed=[1.0, None, 1.0, None]))
     for _ in range(60 if quick else 4000):
         run_case(chk, ctx, gen_objfunc(rng))
     for mode in ('pos', 'zero', 'neg', 'none_entries', 'no_bounds', 'narrow', 'mixed'):
